@@ -131,6 +131,8 @@ type Built struct {
 	Armed *bool
 	// FilePaths are the on-disk files created for "file" sources.
 	FilePaths []string
+	// after holds what the caller does with its own readers/buffers once everything is attached.
+	after []func()
 }
 
 // Env holds per-process resources for builders.
@@ -409,6 +411,35 @@ func Build(spec *MsgSpec, env *Env) (*Built, error) {
 			} else {
 				err = m.AttachHTMLTemplate(f.Name, htmlTpl, ht.HTML(f.Content), fopts...)
 			}
+		case "reader-pos":
+			// the caller has already consumed a prefix of its *bytes.Reader (e.g. sniffed a magic number):
+			// what is attached is the rest
+			r := bytes.NewReader(append([]byte("SNIFFED-PREFIX-"), f.Content...))
+			_, _ = io.CopyN(io.Discard, r, int64(len("SNIFFED-PREFIX-")))
+			if embed {
+				err = m.EmbedReader(f.Name, r, fopts...)
+			} else {
+				err = m.AttachReader(f.Name, r, fopts...)
+			}
+			b.after = append(b.after, func() { _, _ = r.Seek(3, io.SeekStart) })
+		case "reader-drain":
+			// the caller keeps using its reader after attaching (AttachReader has taken a copy)
+			r := strings.NewReader(string(f.Content))
+			if embed {
+				err = m.EmbedReader(f.Name, r, fopts...)
+			} else {
+				err = m.AttachReader(f.Name, r, fopts...)
+			}
+			b.after = append(b.after, func() { _, _ = r.Seek(0, io.SeekStart); _, _ = io.Copy(io.Discard, r) })
+		case "buffer-reuse":
+			// one scratch *bytes.Buffer is reused by the caller after the file was attached
+			buf := bytes.NewBuffer(append([]byte{}, f.Content...))
+			if embed {
+				err = m.EmbedReader(f.Name, buf, fopts...)
+			} else {
+				err = m.AttachReader(f.Name, buf, fopts...)
+			}
+			b.after = append(b.after, func() { buf.Reset(); buf.WriteString(strings.Repeat("OVERWRITTEN-BY-THE-CALLER ", 40)) })
 		default: // reader
 			if embed {
 				err = m.EmbedReader(f.Name, bytes.NewReader(f.Content), fopts...)
@@ -453,6 +484,9 @@ func Build(spec *MsgSpec, env *Env) (*Built, error) {
 			return nil, fmt.Errorf("attachment %d: %w", i, err)
 		}
 	}
+	for _, fn := range b.after {
+		fn()
+	}
 	return b, nil
 }
 
@@ -477,7 +511,8 @@ type GenOpts struct {
 	SimpleNames  bool // file names from a benign pool
 }
 
-var benignNames = []string{"file.txt", "report.pdf", "image.png", "a b.dat", "data", "übung.txt", "日本.bin", "x;y=z.bin", "semi;colon.txt", "noext", "archive.tar.gz", "spaced name here.doc"}
+var benignNames = []string{"file.txt", "report.pdf", "image.png", "a b.dat", "data", "übung.txt", "日本.bin", "x;y=z.bin", "semi;colon.txt", "noext", "archive.tar.gz", "spaced name here.doc",
+	"Screenshot 2024-01-01 at 10.00.00\u202fAM.png", "全角\u3000スペース.txt", "nbsp\u00a0name.doc", "family\U0001F468\u200d\U0001F469.png", "soft\u00adhyphen.txt", "r\xe9sum\xe9 latin1.pdf", "bom\ufeffname.bin"}
 
 var benignDescs = []string{"", "", "", "a description", "Beschreibung mit ü", "desc; with=chars", "x"}
 
@@ -558,7 +593,7 @@ func Program(t *rapid.T, o GenOpts) *MsgSpec {
 	}
 	srcs := o.Sources
 	if len(srcs) == 0 {
-		srcs = []string{"reader", "readseeker", "file", "iofs", "texttpl", "htmltpl", "writer"}
+		srcs = []string{"reader", "readseeker", "file", "iofs", "texttpl", "htmltpl", "writer", "reader-pos", "reader-drain", "buffer-reuse"}
 	}
 	file := func(label string) FileSpec {
 		f := FileSpec{}
